@@ -782,6 +782,7 @@ func (x *Exec) rangeInit(v Value) Value {
 		choice := 0
 		if len(perms) > 1 {
 			choice = int(x.concretizeChoice(len(perms), "map iteration order"))
+			x.mapOrderChoices++
 		}
 		it.order = perms[choice]
 		if t != nil {
